@@ -9,7 +9,16 @@
         | (srelpre)  the oldest handler parked before its reply write proceeds
         | (sarmgot) | (srelgot)  gate read.got: the reader parks between reading a frame and
                                  counting its context
-   observed = per event (sCLOSER sSTATUS nSTARTS (IN-CLASS ...) (OUT-CLASS ...)) *)
+        | (sclose2)  another Session.Close() (queues on the session lock behind a running one)
+        | (spclose)  Peer.Close() (calls Close() on the session iff it is still indexed)
+        | (spush)    this side pushes
+        | (slost)    the connection is cut
+        | (sstallw) | (srelw)  the connection stalls the NEXT write of this side half-way (the
+                               writer keeps the session write lock) / lets it finish
+   observed = per event ((nCLOSE-CALLS nRETURNED) sSTATUS nSTARTS (IN-CLASS ...) (OUT-CLASS ...) (PUSH-CLASS ...))
+   The session write lock is held only inside the write step (status check K2/A2 first, then
+   lock+write+unlock = K2w/A2w, the order of session.write); a stalled write is that step
+   withheld while every other write step is disabled. *)
 From Coq Require Import Strings.String Strings.Byte.
 From Coq Require Import List Arith NArith ZArith Bool Lia.
 From Verif Require Import Base.Bytes Base.Val Model.Lifecycle Model.CallLife Model.Graceful.
@@ -17,13 +26,25 @@ Import ListNotations.
 
 Inductive inrec := InQueued (i : nat) | InLost.
 
+Record gx := mkGx {
+  x_arm : bool;                    (* the next write of this side will stall *)
+  x_hold : option (bool * nat);    (* stalled writer: (true, call i) / (false, context j) *)
+  x_calls : nat;                   (* Close() calls made *)
+  x_wait : nat;                    (* Close() calls queued on the session lock *)
+  x_ret : nat                      (* Close() calls returned *)
+}.
+
 Record g8 := mkG8 {
   g_s : sess; g_q : list frame; g_got : bool;
   g_relrun : option nat; g_relpre : option nat;   (* hctx allowed to leave its parking place *)
-  g_ins : list inrec; g_nin : nat; g_closing : bool
+  g_ins : list inrec; g_nin : nat; g_closing : bool; g_x : gx
 }.
 
-Definition set_s (g : g8) (s : sess) := mkG8 s (g_q g) (g_got g) (g_relrun g) (g_relpre g) (g_ins g) (g_nin g) (g_closing g).
+Definition set_s (g : g8) (s : sess) := mkG8 s (g_q g) (g_got g) (g_relrun g) (g_relpre g) (g_ins g) (g_nin g) (g_closing g) (g_x g).
+Definition set_x (g : g8) (x : gx) := mkG8 (g_s g) (g_q g) (g_got g) (g_relrun g) (g_relpre g) (g_ins g) (g_nin g) (g_closing g) x.
+
+(* the result of a write of this side, fixed by the scripted connection *)
+Definition wr_of (s : sess) : wres := if negb (sock s) then WClosed else if conn s then WOk else WOther.
 
 Fixpoint first_some {A} (f : nat -> option A) (n : nat) : option A :=
   match n with
@@ -34,6 +55,30 @@ Fixpoint first_some {A} (f : nat -> option A) (n : nat) : option A :=
 Definition is_some_nat (o : option nat) (j : nat) : bool :=
   match o with Some k => Nat.eqb k j | None => false end.
 
+(* a write step (A2w / K2w) is withheld while another write is stalled; with a stall armed the
+   first writer that gets there becomes the stalled one *)
+Definition gate_write (g : g8) (who : bool * nat) (step : option g8) : option g8 :=
+  match x_hold (g_x g) with
+  | Some _ => None
+  | None =>
+      match step with
+      | None => None
+      | Some g' =>
+          if x_arm (g_x g) then
+            Some (set_x g (mkGx false (Some who) (x_calls (g_x g)) (x_wait (g_x g)) (x_ret (g_x g))))
+          else Some g'
+      end
+  end.
+
+Definition caller_free (g : g8) (i : nat) : option g8 :=
+  let s := g_s g in
+  match nth_error (calls s) i with
+  | Some c =>
+      let st := option_map (set_s g) (caller_step s i false (wr_of s)) in
+      match c_a c with A2w => gate_write g (true, i) st | _ => st end
+  | None => None
+  end.
+
 (* a local CALL handler parks inside the user handler (K1) and before its reply write (K2) *)
 Definition handler_free (g : g8) (j : nat) : option g8 :=
   let s := g_s g in
@@ -42,15 +87,16 @@ Definition handler_free (g : g8) (j : nat) : option g8 :=
       match k_kind h, k_pc h with
       | KCall, K1 =>
           if is_some_nat (g_relrun g) j then
-            option_map (fun s' => mkG8 s' (g_q g) (g_got g) None (g_relpre g) (g_ins g) (g_nin g) (g_closing g))
-                       (handler_step s j false (wr_choice s))
+            option_map (fun s' => mkG8 s' (g_q g) (g_got g) None (g_relpre g) (g_ins g) (g_nin g) (g_closing g) (g_x g))
+                       (handler_step s j false (wr_of s))
           else None
       | KCall, K2 =>
           if is_some_nat (g_relpre g) j then
-            option_map (fun s' => mkG8 s' (g_q g) (g_got g) (g_relrun g) None (g_ins g) (g_nin g) (g_closing g))
-                       (handler_step s j false (wr_choice s))
+            option_map (fun s' => mkG8 s' (g_q g) (g_got g) (g_relrun g) None (g_ins g) (g_nin g) (g_closing g) (g_x g))
+                       (handler_step s j false (wr_of s))
           else None
-      | _, _ => option_map (set_s g) (handler_step s j false (wr_choice s))
+      | _, K2w => gate_write g (false, j) (option_map (set_s g) (handler_step s j false (wr_of s)))
+      | _, _ => option_map (set_s g) (handler_step s j false (wr_of s))
       end
   | None => None
   end.
@@ -58,10 +104,32 @@ Definition handler_free (g : g8) (j : nat) : option g8 :=
 Definition fst_opt (o : option (sess * effect)) : option sess :=
   match o with Some (s, _) => Some s | None => None end.
 
+(* closeLocked: when it ends, one Close() call returns; a Close() queued on the session lock
+   starts when no closeLocked is running *)
+Definition closer_move (g : g8) : option g8 :=
+  let s := g_s g in
+  let x := g_x g in
+  match fst_opt (closer_step s) with
+  | Some s' =>
+      let x' := match cl s' with
+                | CIdle => mkGx (x_arm x) (x_hold x) (x_calls x) (x_wait x) (S (x_ret x))
+                | _ => x end in
+      Some (set_x (set_s g s') x')
+  | None =>
+      match cl s, x_wait x with
+      | CIdle, S w =>
+          match close_call s with
+          | Some s' => Some (set_x (set_s g s') (mkGx (x_arm x) (x_hold x) (x_calls x) w (x_ret x)))
+          | None => None
+          end
+      | _, _ => None
+      end
+  end.
+
 Definition one_move (g : g8) : option g8 :=
   let s := g_s g in
   let n := length (calls s) in
-  match first_some (fun i => option_map (set_s g) (caller_step s i false (wr_choice s))) n with
+  match first_some (caller_free g) n with
   | Some g' => Some g'
   | None =>
   match first_some (fun i => option_map (set_s g) (reply_step s i)) n with
@@ -70,8 +138,8 @@ Definition one_move (g : g8) : option g8 :=
   match first_some (handler_free g) (length (hctxs s)) with
   | Some g' => Some g'
   | None =>
-  match fst_opt (closer_step s) with
-  | Some s' => Some (set_s g s')
+  match closer_move g with
+  | Some g' => Some g'
   | None =>
   match first_some (fun i => option_map (set_s g) (visit_step s i)) n with
   | Some g' => Some g'
@@ -82,13 +150,13 @@ Definition one_move (g : g8) : option g8 :=
   | None =>
       match rd s with
       | R2 =>
-          if negb (sock s) || negb (conn s) then option_map (set_s g) (frame_step s FrErr)
+          if negb (sock s) then option_map (set_s g) (frame_step s FrErr)
           else match g_q g with
                | f :: q => match frame_step s f with
-                           | Some s' => Some (mkG8 s' q (g_got g) (g_relrun g) (g_relpre g) (g_ins g) (g_nin g) (g_closing g))
+                           | Some s' => Some (mkG8 s' q (g_got g) (g_relrun g) (g_relpre g) (g_ins g) (g_nin g) (g_closing g) (g_x g))
                            | None => None
                            end
-               | [] => None
+               | [] => if negb (conn s) then option_map (set_s g) (frame_step s FrErr) else None
                end
       | _ => None
       end
@@ -121,22 +189,46 @@ Definition do_ev (g : g8) (ev : val) : option g8 :=
       let s := g_s g in
       if bytes_eqb k (str "in") then
         if sock s && conn s && reader_alive s then
-          Some (mkG8 s (g_q g ++ [FrCall]) (g_got g) (g_relrun g) (g_relpre g) (g_ins g ++ [InQueued (g_nin g)]) (S (g_nin g)) (g_closing g))
-        else Some (mkG8 s (g_q g) (g_got g) (g_relrun g) (g_relpre g) (g_ins g ++ [InLost]) (g_nin g) (g_closing g))
+          Some (mkG8 s (g_q g ++ [FrCall]) (g_got g) (g_relrun g) (g_relpre g) (g_ins g ++ [InQueued (g_nin g)]) (S (g_nin g)) (g_closing g) (g_x g))
+        else Some (mkG8 s (g_q g) (g_got g) (g_relrun g) (g_relpre g) (g_ins g ++ [InLost]) (g_nin g) (g_closing g) (g_x g))
       else if bytes_eqb k (str "out") then Some (set_s g (issue s))
-      else if bytes_eqb k (str "close") then
+      else if bytes_eqb k (str "close") || bytes_eqb k (str "close2") then
+        let x := g_x g in
         match close_call s with
-        | Some s' => Some (mkG8 s' (g_q g) (g_got g) (g_relrun g) (g_relpre g) (g_ins g) (g_nin g) true)
-        | None => Some g
+        | Some s' => Some (mkG8 s' (g_q g) (g_got g) (g_relrun g) (g_relpre g) (g_ins g) (g_nin g) true
+                              (mkGx (x_arm x) (x_hold x) (S (x_calls x)) (x_wait x) (x_ret x)))
+        | None => Some (set_x g (mkGx (x_arm x) (x_hold x) (S (x_calls x)) (S (x_wait x)) (x_ret x)))
         end
+      else if bytes_eqb k (str "pclose") then
+        (* peer.Close ranges over the index: the session is there iff it is still ok *)
+        let x := g_x g in
+        match st s with
+        | Ok =>
+            match close_call s with
+            | Some s' => Some (mkG8 s' (g_q g) (g_got g) (g_relrun g) (g_relpre g) (g_ins g) (g_nin g) true
+                                  (mkGx (x_arm x) (x_hold x) (S (x_calls x)) (x_wait x) (x_ret x)))
+            | None => Some (set_x g (mkGx (x_arm x) (x_hold x) (S (x_calls x)) (S (x_wait x)) (x_ret x)))
+            end
+        | _ => Some (set_x g (mkGx (x_arm x) (x_hold x) (S (x_calls x)) (x_wait x) (S (x_ret x))))
+        end
+      else if bytes_eqb k (str "push") then Some (set_s g (push_call s))
+      else if bytes_eqb k (str "lost") then Some (set_s g (set_conn s false))
+      else if bytes_eqb k (str "stallw") then
+        let x := g_x g in
+        match x_hold x with
+        | Some _ => Some g
+        | None => Some (set_x g (mkGx true None (x_calls x) (x_wait x) (x_ret x)))
+        end
+      else if bytes_eqb k (str "relw") then
+        let x := g_x g in Some (set_x g (mkGx false None (x_calls x) (x_wait x) (x_ret x)))
       else if bytes_eqb k (str "relrun") then
-        Some (mkG8 s (g_q g) (g_got g) (oldest_at (hctxs s) K1 0) (g_relpre g) (g_ins g) (g_nin g) (g_closing g))
+        Some (mkG8 s (g_q g) (g_got g) (oldest_at (hctxs s) K1 0) (g_relpre g) (g_ins g) (g_nin g) (g_closing g) (g_x g))
       else if bytes_eqb k (str "relpre") then
-        Some (mkG8 s (g_q g) (g_got g) (g_relrun g) (oldest_at (hctxs s) K2 0) (g_ins g) (g_nin g) (g_closing g))
+        Some (mkG8 s (g_q g) (g_got g) (g_relrun g) (oldest_at (hctxs s) K2 0) (g_ins g) (g_nin g) (g_closing g) (g_x g))
       else if bytes_eqb k (str "armgot") then
-        Some (mkG8 s (g_q g) true (g_relrun g) (g_relpre g) (g_ins g) (g_nin g) (g_closing g))
+        Some (mkG8 s (g_q g) true (g_relrun g) (g_relpre g) (g_ins g) (g_nin g) (g_closing g) (g_x g))
       else if bytes_eqb k (str "relgot") then
-        Some (mkG8 s (g_q g) false (g_relrun g) (g_relpre g) (g_ins g) (g_nin g) (g_closing g))
+        Some (mkG8 s (g_q g) false (g_relrun g) (g_relpre g) (g_ins g) (g_nin g) (g_closing g) (g_x g))
       else None
   | VL [VS k; VN i] =>
       if bytes_eqb k (str "qrep") then
@@ -144,8 +236,8 @@ Definition do_ev (g : g8) (ev : val) : option g8 :=
         match nth_error (calls s) (N.to_nat i) with
         | Some c =>
             (* the remote handler ran only if the request reached it *)
-            if c_wrote c && (c_dones c =? 0) && reader_alive s && sock s
-            then Some (mkG8 s (g_q g ++ [FrReply (N.to_nat i) FOk]) (g_got g) (g_relrun g) (g_relpre g) (g_ins g) (g_nin g) (g_closing g))
+            if c_wrote c && (c_dones c =? 0) && reader_alive s && sock s && conn s
+            then Some (mkG8 s (g_q g ++ [FrReply (N.to_nat i) FOk]) (g_got g) (g_relrun g) (g_relpre g) (g_ins g) (g_nin g) (g_closing g) (g_x g))
             else Some g
         | None => None
         end
@@ -186,19 +278,30 @@ Definition in_class (s : sess) (r : inrec) : val :=
       match nth_call_ctx (hctxs s) i with
       | Some h => match k_res h with
                   | WrWritten => vsym "ok"
-                  | _ => if negb (sock s) then vsym "connclosed" else vsym "pending"
+                  | _ => if negb (sock s) || negb (conn s) then vsym "connclosed" else vsym "pending"
                   end
-      | None => if negb (sock s) then vsym "connclosed" else vsym "pending"
+      | None => if negb (sock s) || negb (conn s) then vsym "connclosed" else vsym "pending"
       end
+  end.
+
+Definition push_class (h : hctx) : val :=
+  match k_pc h with
+  | K4 | KDone =>
+      match k_res h with
+      | WrWritten => vsym "ok" | WrRefused | WrFailedClosed => vsym "connclosed"
+      | WrFailedOther => vsym "writefailed" | WrVeto => vsym "veto" | WrNone => vsym "pending"
+      end
+  | _ => vsym "pending"
   end.
 
 Definition obs (g : g8) : val :=
   let s := g_s g in
-  VL [ (if negb (g_closing g) then vsym "idle" else match cl s with CIdle => vsym "done" | _ => vsym "blocked" end);
+  VL [ VL [VN (N.of_nat (x_calls (g_x g))); VN (N.of_nat (x_ret (g_x g)))];
        status_sym (st s);
        VN (N.of_nat (starts s));
        VL (map (in_class s) (g_ins g));
-       VL (map (fun c => if c_dones c =? 0 then vsym "pending" else class_of (c_stat c)) (calls s)) ].
+       VL (map (fun c => if c_dones c =? 0 then vsym "pending" else class_of (c_stat c)) (calls s));
+       VL (map push_class (filter (fun h => match k_kind h with KPushOut => true | _ => false end) (hctxs s))) ].
 
 Fixpoint run_evs (fu : nat) (g : g8) (evs : list val) : option (list val) :=
   match evs with
@@ -219,7 +322,7 @@ Definition live0 : sess := mkSess Ok true true 0 0 0 0 [] [] R2 CIdle 0%N true 0
 
 Definition run (inp : val) : option val :=
   match inp with
-  | VL evs => option_map VL (run_evs 3000 (mkG8 live0 [] false None None [] 0 false) evs)
+  | VL evs => option_map VL (run_evs 3000 (mkG8 live0 [] false None None [] 0 false (mkGx false None 0 0 0)) evs)
   | _ => None
   end.
 
